@@ -166,6 +166,10 @@ func Check(c *core.Ctx) (map[string]any, []string, error) {
 	if len(t.samples) == 0 {
 		t.samples = append(t.samples, "none")
 	}
+	numOrder, err := checkNumOrder(c)
+	if err != nil {
+		return nil, nil, err
+	}
 	judged := t.runLines + t.synCases
 	cov := map[string]any{
 		"states": t.states, "transitions": t.transitions, "traces_validated_against_impl": judged,
@@ -179,7 +183,7 @@ func Check(c *core.Ctx) (map[string]any, []string, error) {
 		"context_error_pairs_possible": len(CtxKinds) * len(ErrKinds),
 		"runs_ending_in_error":         t.endErr, "runs_ending_normally": t.endNormal, "max_frames_observed": t.maxFrames,
 		"trace_limits": "0..12 and depth..depth+2", "nesting_depth": "0..4 contexts (plus built-in frames)",
-		"binding_self_test": t.self, "tlc_wall_s": t.tlcWall,
+		"binding_self_test": t.self, "tlc_wall_s": t.tlcWall, "number_format_error_order": numOrder,
 	}
 	assumptions := []string{
 		"programs come from the seeded generator harness/internal/c19/gen.go; the renderer harness/internal/c19/render.go is trusted to report the offset at which it wrote each node (cross-checked only by the agreement of many thousand positions with the implementation)",
